@@ -41,12 +41,25 @@ UNIT_OF = {"translation_part": "m", "point_distance": "m", "rotation_angle_deg":
 LEN_F = {"mm": 1e-3, "cm": 1e-2, "m": 1.0, "km": 1e3}
 
 
-def tol_for(relation, p_ref, p_est):
+def rotation_defect(*Rsets):
+    """largest distance from SO(3) among the given rotation arrays (file data may carry only
+    ~7 significant digits: the 'definition' is then only defined up to that defect)"""
+    worst = 0.0
+    for Rs in Rsets:
+        Rs = np.asarray(Rs, dtype=float)
+        if len(Rs):
+            worst = max(worst, float(np.max(np.abs(np.einsum("nji,njk->nik", Rs, Rs) - np.eye(3)))))
+    return worst
+
+
+def tol_for(relation, p_ref, p_est, defect=0.0):
     mag = 1.0 + float(np.max(np.abs(p_ref))) + float(np.max(np.abs(p_est)))
     if relation in ("rotation_part", "rotation_angle_rad"):
-        return 1e-9
+        return 1e-9 + 8 * defect
     if relation == "rotation_angle_deg":
-        return 1e-7
+        return 1e-7 + 8 * defect * 57.3
+    if relation == "full_transformation":
+        return 1e-9 * mag + 8 * defect * mag
     return 1e-9 * mag
 
 
@@ -510,7 +523,7 @@ def ape_cli(run, case, rng, work):
                      key="cli:length"):
         return None
     want = rm.ape_definition(relation, ref_s.R, ref_s.p, est_s.R, est_s.p) * factor
-    tol = tol_for(relation, ref_s.p, est_s.p) * abs(factor)
+    tol = tol_for(relation, ref_s.p, est_s.p, rotation_defect(ref_s.R, est_s.R)) * abs(factor)
     dev = float(np.max(np.abs(e - want))) if len(e) else 0.0
     run.note_max("max_deviation_over_tolerance_L3", dev / tol)
     run.check(dev <= tol, "evo_ape values == definition on the surviving processed pairs", case,
